@@ -91,10 +91,13 @@ def render_encoder(which):
     inner = [n for n in ast.walk(outer) if isinstance(n, ast.FunctionDef) and n.name == 'render_literal_value']
     if len(inner) != 1:
         raise FstError(f'{which}: {len(inner)} render_literal_value overrides')
-    br = C04.branch_function(inner[0], 'isinstance(value, (str')
-    if br is None:
-        raise FstError('str branch not found')
-    return codec.function_transducer(br, ALPHABET, ['value'], result='return'), inner[0]
+    try:
+        return codec.function_transducer(inner[0], ALPHABET, ['value'], result='return', module=RENDER, static=codec.str_value_assumptions(())), inner[0]
+    except FstError as e:
+        br = C04.branch_function(inner[0], 'isinstance(value, (str')
+        if br is None:
+            raise FstError(f'{e}; str branch not found either')
+        return codec.function_transducer(br, ALPHABET, ['value'], result='return', module=RENDER), inner[0]
 
 
 def real_render_literal(which, v):
